@@ -123,15 +123,30 @@ func TestC14Rapid(t *testing.T) {
 				}
 				return out
 			}
+			// the other edit kinds (hooks with args/env, mounts with options, additional gids incl. 0 and repeats,
+			// Intel RDT): slices and pointers that an in-place "filter" or a shared pointer would write through
+			others := func(label string, e *specs.ContainerEdits) {
+				if !rapid.Bool().Draw(t, label+"others") {
+					return
+				}
+				x := gen.Edits(t, label, gen.EditOpts{NoHost: true, Marker: label, MaxPer: 3})
+				e.Hooks, e.Mounts, e.IntelRdt = x.Hooks, x.Mounts, x.IntelRdt
+				e.AdditionalGIDs = x.AdditionalGIDs
+				if len(e.AdditionalGIDs) > 0 && rapid.Bool().Draw(t, label+"zeroGidFirst") {
+					e.AdditionalGIDs = append([]uint32{0}, e.AdditionalGIDs...)
+				}
+			}
 			if rapid.Bool().Draw(t, fmt.Sprintf("f%dSpecEdits", fi)) {
 				s.ContainerEdits.DeviceNodes = mkNodes("s", 1)
 				s.ContainerEdits.Env = []string{fmt.Sprintf("SPEC%d=1", fi)}
+				others(fmt.Sprintf("f%ds", fi), &s.ContainerEdits)
 			}
 			nDev := rapid.IntRange(1, 2).Draw(t, fmt.Sprintf("f%dDevs", fi))
 			for di := 0; di < nDev; di++ {
 				d := specs.Device{Name: fmt.Sprintf("d%d", di)}
 				d.ContainerEdits.DeviceNodes = mkNodes(fmt.Sprintf("d%dn", di), rapid.IntRange(1, 2).Draw(t, fmt.Sprintf("f%dd%dNodes", fi, di)))
 				d.ContainerEdits.Env = []string{fmt.Sprintf("DEV%d_%d=1", fi, di)}
+				others(fmt.Sprintf("f%dd%d", fi, di), &d.ContainerEdits)
 				s.Devices = append(s.Devices, d)
 			}
 			s.Version = model.RequiredVersion(s)
